@@ -217,6 +217,12 @@ pub struct World {
     pub principals: BTreeMap<P, Vec<String>>,
     pub aux: BTreeMap<String, String>,
     pub ids: Ids,
+    /// what GOVERNANCE last set (sudo): the minter's Status as bits 4/2/1 and the factory's
+    /// Params answer; no user message may move either
+    pub gov_status: Option<u64>,
+    pub gov_params: Option<String>,
+    /// the contract's wasm-level admin (the only account the chain lets migrate it)
+    pub wasm_admin: Option<String>,
 }
 
 pub const ACCOUNTS: [&str; 16] = [
@@ -240,6 +246,69 @@ fn fund_all(app: &mut App) {
     for a in ACCOUNTS {
         chain::mint_coins(app, a, 1_000_000_000_000, NATIVE);
     }
+}
+
+/// instantiate with a wasm-level admin (what the factories / minters do for the contracts they create)
+pub fn instantiate_admin(app: &mut App, code_id: u64, sender: &str, admin: Option<&str>, msg: &Value, funds: u128, label: &str) -> Result<Addr, String> {
+    use cosmwasm_std::{CosmosMsg, WasmMsg};
+    let f = if funds > 0 { vec![coin(funds, NATIVE)] } else { vec![] };
+    let m: CosmosMsg = WasmMsg::Instantiate {
+        admin: admin.map(|a| a.to_string()),
+        code_id,
+        msg: Binary::from(serde_json::to_vec(msg).unwrap()),
+        funds: f,
+        label: label.to_string(),
+    }
+    .into();
+    match crate::util::catch(|| app.execute(Addr::unchecked(sender), m)) {
+        Ok(Ok(r)) => instantiated_addrs(&r).first().cloned().ok_or_else(|| "no instantiate event".to_string()),
+        Ok(Err(e)) => Err(format!("{:#}", e)),
+        Err(p) => Err(p),
+    }
+}
+
+/// the factory's SudoMsg::UpdateParams that changes only max_trading_offset_secs
+pub fn offset_update_json(kind: FactoryKind, offset: u64) -> Value {
+    crate::c18::upd_json(kind, &crate::c18::Upd { offset: Some(offset), ..Default::default() })
+}
+
+/// Governance acts: Status {verified, blocked, explicit} all set on the minter, a
+/// non-default trading offset on the factory.  From here on a user message that resets
+/// either to its default (or to anything else) is visible.
+pub fn govern(w: &mut World, kind: FactoryKind, factory: &Addr, minter: Option<&Addr>) -> Result<(), String> {
+    let p0 = q_params(&w.app, factory)?;
+    let off = p0.get("max_trading_offset_secs").and_then(|x| x.as_u64()).ok_or("no offset")?;
+    sudo_json(&mut w.app, factory, &offset_update_json(kind, off + 1)).map_err(|e| format!("governance UpdateParams: {}", e))?;
+    let p1 = q_params(&w.app, factory)?;
+    if p1.get("max_trading_offset_secs").and_then(|x| x.as_u64()) != Some(off + 1) {
+        return Err("governance UpdateParams did not take effect".into());
+    }
+    w.gov_params = Some(p1.to_string());
+    if let Some(m) = minter {
+        sudo_update_status(&mut w.app, m, true, true, true).map_err(|e| format!("governance UpdateStatus: {}", e))?;
+        if status_bits(&w.app, m) != 7 {
+            return Err("governance UpdateStatus did not take effect".into());
+        }
+        w.gov_status = Some(7);
+    }
+    Ok(())
+}
+
+/// what the queries answer now: (minter Status bits, factory Params text)
+pub fn gov_view(w: &World) -> (Option<u64>, Option<String>) {
+    let minter = match w.ck {
+        CK::Minter(_) => Some(w.target.clone()),
+        _ => None,
+    };
+    let factory = match w.ck {
+        CK::Factory(_) => Some(w.target.clone()),
+        CK::Minter(_) => w.aux.get("factory").map(|a| Addr::unchecked(a.clone())),
+        _ => None,
+    };
+    (
+        minter.map(|m| status_bits(&w.app, &m)),
+        factory.map(|f| q_params(&w.app, &f).map(|p| p.to_string()).unwrap_or_else(|e| format!("error {}", e))),
+    )
 }
 
 fn ts(n: u64) -> Value {
@@ -379,7 +448,8 @@ fn factory_world(kind: FactoryKind, state: &str) -> Result<World, String> {
         ("factory-itself".to_string(), mw.factory.to_string()),
         ("creator".to_string(), CREATOR.to_string()),
     ];
-    Ok(World {
+    let (fac, min) = (mw.factory.clone(), mw.minter.clone());
+    let mut w = World {
         app,
         ck: CK::Factory(kind),
         state: state.to_string(),
@@ -390,7 +460,56 @@ fn factory_world(kind: FactoryKind, state: &str) -> Result<World, String> {
         principals: BTreeMap::new(),
         aux,
         ids: fresh_ids(),
-    })
+        gov_status: None,
+        gov_params: None,
+        wasm_admin: None,
+    };
+    govern(&mut w, kind, &fac, Some(&min))?;
+    Ok(w)
+}
+
+/// a factory with a wasm-level admin ("fadmin"), so that MsgMigrateContract has a caller
+/// the chain lets through; governance has set a non-default trading offset
+pub fn factory_migrate_world(kind: FactoryKind) -> Result<World, String> {
+    let mut app = chain::new_app();
+    fund_all(&mut app);
+    let sg721 = app.store_code(chain::sg721_base());
+    let mcode = app.store_code(kind.minters()[0].code());
+    let fcode = app.store_code(kind.code());
+    let params = default_params(kind, mcode, &[sg721]);
+    let factory = instantiate_admin(&mut app, fcode, GOV, Some("fadmin"), &json!({ "params": params_json(kind, &params) }), 0, kind.name())?;
+    let mut w = World {
+        app,
+        ck: CK::Factory(kind),
+        state: "governed".to_string(),
+        target: factory.clone(),
+        roles: vec![
+            ("stranger".to_string(), "stranger".to_string()),
+            ("creator".to_string(), CREATOR.to_string()),
+            ("governance-account".to_string(), GOV.to_string()),
+            ("factory-itself".to_string(), factory.to_string()),
+            ("wasm-admin".to_string(), "fadmin".to_string()),
+        ],
+        contracts: vec![factory.clone()],
+        accounts: ACCOUNTS.iter().map(|s| s.to_string()).collect(),
+        principals: BTreeMap::new(),
+        aux: BTreeMap::new(),
+        ids: fresh_ids(),
+        gov_status: None,
+        gov_params: None,
+        wasm_admin: Some("fadmin".to_string()),
+    };
+    govern(&mut w, kind, &factory, None)?;
+    // nothing is created in this world: governance has also frozen the factory, so a
+    // user message that un-freezes it (or resets anything to its default) shows
+    let fr = crate::c18::upd_json(kind, &crate::c18::Upd { frozen: Some(true), ..Default::default() });
+    sudo_json(&mut w.app, &factory, &fr).map_err(|e| format!("governance freeze: {}", e))?;
+    let p = q_params(&w.app, &factory)?;
+    if p.get("frozen").and_then(|b| b.as_bool()) != Some(true) {
+        return Err("governance freeze did not take effect".into());
+    }
+    w.gov_params = Some(p.to_string());
+    Ok(w)
 }
 
 // ------------------------------------------------------------------ minters
@@ -446,6 +565,9 @@ fn minter_world(kind: MinterKind, state: &str) -> Result<World, String> {
         principals: BTreeMap::new(),
         aux: BTreeMap::new(),
         ids: fresh_ids(),
+        gov_status: None,
+        gov_params: None,
+        wasm_admin: None,
     };
     fund_all(&mut w.app);
     w.aux.insert("factory".into(), mw.factory.to_string());
@@ -473,6 +595,9 @@ fn minter_world(kind: MinterKind, state: &str) -> Result<World, String> {
     }
     w.principals.insert(P::MinterAdmin, vec![CREATOR.to_string()]);
     w.principals.insert(P::BaseMinterCreator, vec![CREATOR.to_string()]);
+    // the factory made the creator the wasm admin of the minter; governance has acted
+    w.wasm_admin = w.app.wrap().query_wasm_contract_info(mw.minter.to_string()).ok().and_then(|i| i.admin);
+    govern(&mut w, fk, &mw.factory, Some(&mw.minter))?;
     let minter = mw.minter.clone();
     let collection = mw.collection.clone();
     match state {
@@ -625,7 +750,8 @@ fn coll_world(kind: CollKind, state: &str) -> Result<World, String> {
     let pcode = app.store_code(puppet());
     let minter = mw.minter.to_string();
     let minter2 = mw.factory.to_string(); // another contract address: the hand-over target
-    let coll = instantiate_json(&mut app, code, &minter, &coll_instantiate_json(&minter, CREATOR), "coll-under-test")
+    // as the minters do: the creator becomes the collection's wasm admin
+    let coll = instantiate_admin(&mut app, code, &minter, Some(CREATOR), &coll_instantiate_json(&minter, CREATOR), 0, "coll-under-test")
         .map_err(|e| format!("collection instantiate by the minter contract failed: {}", e))?;
     let receiver = instantiate_json(&mut app, pcode, CREATOR, &json!({}), "receiver").map_err(|e| format!("puppet: {}", e))?;
     let mut w = World {
@@ -650,7 +776,11 @@ fn coll_world(kind: CollKind, state: &str) -> Result<World, String> {
         principals: BTreeMap::new(),
         aux: BTreeMap::new(),
         ids: fresh_ids(),
+        gov_status: None,
+        gov_params: None,
+        wasm_admin: None,
     };
+    w.wasm_admin = Some(CREATOR.to_string());
     w.aux.insert("minter".into(), minter.clone());
     w.aux.insert("minter2".into(), minter2.clone());
     w.aux.insert("receiver".into(), receiver.to_string());
@@ -940,7 +1070,7 @@ fn wl_world(kind: WlKind, state: &str) -> Result<World, String> {
     let mutable = state != "instantiated-immutable";
     let (msg, fee) = wl_instantiate_json(kind, start, end, 50_000_000, &["wladmin1", "wladmin2"], mutable);
     let funds = if fee > 0 { vec![coin(fee, NATIVE)] } else { vec![] };
-    let r = crate::util::catch(|| app.instantiate_contract(code, Addr::unchecked("wladmin1"), &msg, &funds, "wl", None));
+    let r = crate::util::catch(|| app.instantiate_contract(code, Addr::unchecked("wladmin1"), &msg, &funds, "wl", Some("wladmin1".to_string())));
     let wl = match r {
         Ok(Ok(a)) => a,
         Ok(Err(e)) => return Err(format!("{} instantiate: {:#}", kind.name(), e)),
@@ -966,9 +1096,13 @@ fn wl_world(kind: WlKind, state: &str) -> Result<World, String> {
         principals: BTreeMap::new(),
         aux: BTreeMap::new(),
         ids: fresh_ids(),
+        gov_status: None,
+        gov_params: None,
+        wasm_admin: None,
     };
     w.aux.insert("start".into(), start.to_string());
     w.aux.insert("end".into(), end.to_string());
+    w.wasm_admin = Some("wladmin1".to_string());
     let a12 = vec!["wladmin1".to_string(), "wladmin2".to_string()];
     let a23 = vec!["wladmin2".to_string(), "wladmin3".to_string()];
     if kind == WlKind::Immutable {
@@ -1079,7 +1213,7 @@ fn splits_world(with_admin: bool, state: &str) -> Result<World, String> {
         "group",
     )?;
     let admin: Option<&str> = if with_admin { Some("spadmin") } else { None };
-    let splits = instantiate_json(&mut app, scode, "creator", &json!({"admin": admin, "group": {"cw4_address": group}}), "splits")?;
+    let splits = instantiate_admin(&mut app, scode, "creator", Some("creator"), &json!({"admin": admin, "group": {"cw4_address": group}}), 0, "splits")?;
     chain::mint_coins(&mut app, splits.as_str(), 3_000_000, NATIVE);
     let mut w = World {
         app,
@@ -1103,8 +1237,12 @@ fn splits_world(with_admin: bool, state: &str) -> Result<World, String> {
         principals: BTreeMap::new(),
         aux: BTreeMap::new(),
         ids: fresh_ids(),
+        gov_status: None,
+        gov_params: None,
+        wasm_admin: None,
     };
     w.aux.insert("group".into(), group.to_string());
+    w.wasm_admin = Some("creator".to_string());
     let members = vec!["member1".to_string(), "member2".to_string()];
     if with_admin {
         w.principals.insert(P::SplitsDistributor, vec!["spadmin".to_string()]);
